@@ -30,7 +30,7 @@ Proof.
   - exists s0. split; [reflexivity|].
     unfold p_new in E0.
     pose proof (verdict_sound (iD ft (spec_of p)) (iPP ft (spec_of p)) (iisig ft (spec_of p))
-                  (ilr ft (spec_of p) 0) (ilr ft (spec_of p) 1) (ialpha (spec_of p))
+                  (ilr ft (spec_of p) 0) (ilr ft (spec_of p) 1) (icref ft (spec_of p)) (ialpha (spec_of p))
                   (Rof (ft, p)) (known ft p) s0 E0 OK) as [H1 H2].
     split; [exact H1|]. intros h Hh m Hm f Hf. exact (H2 h Hh m Hm f Hf).
   - exfalso. unfold panel_ok in OK. unfold p_new in E0. rewrite E0 in OK. discriminate.
@@ -44,7 +44,7 @@ Theorem findings_witnessed : forall c, In c cfgs -> forall f, In f (known (fst c
               In f (snd (p_macro (fst c) (spec_of (snd c)) 1 s m)).
 Proof.
   intros c Hc f Hf. pose proof (all_ok c Hc) as OK. destruct c as [ft p]. cbn [fst snd] in *.
-  exact (verdict_exact _ _ _ _ _ _ _ _ OK f Hf).
+  exact (verdict_exact _ _ _ _ _ _ _ _ _ OK f Hf).
 Qed.
 
 (** ** per property *)
